@@ -30,10 +30,11 @@ def owner(a, clause, exc):
         return "C06"
     if op == "bad":
         return "C14"
-    if clause == "raises":
-        return "C11" if op in ("insert_multiple", "update", "update_all") else ("C09" if op in READ_C01 else "C11")
-    if exc:                      # state after a raised call
+    if clause == "raises" and not exc:      # the call had to raise and did not
         return "C11"
+    if clause != "raises" and exc:          # state after a raised call
+        return "C11"
+    # (clause "raises" with exc set: the call raised although it had to answer - owned by the operation's property)
     if a.get("via") == "handle":
         return "C10"
     if op in READ_C01:
